@@ -21,3 +21,9 @@ PROP = dict(
           rc('C01_parallel_debug', 'harness/C01_parallel.cpp', 'debug-asan', flags=FL)],
 )
 PROP['rule'] += ' Round-3 extension: on TBB and the serial backend, optionally the SAME loop (same body object, same thread) is first run with a body that throws and the exception is handled by the caller; the checked loop that follows must be unaffected.'
+
+# round five: the OpenMP runtime may deliver a SMALLER team than the one asked for (OMP_THREAD_LIMIT set by a batch system or a
+# container, dynamic adjustment): the same cases on the OpenMP backend with at most 3 threads available to the runtime
+PROP['bins'].append(rc('C01_parallel_omp_limit3', 'harness/C01_parallel.cpp', 'omp-asan', flags=FL, env={'OMP_THREAD_LIMIT': '3'},
+                       quick=dict(scale=0.5), thorough=dict(scale=5, seeds=4)))
+PROP['rule'] += ' Round-5 extension: the OpenMP binary also runs with OMP_THREAD_LIMIT=3 in its environment (the runtime then delivers smaller teams than initTaskingSystem(n) asked for; every index must still run exactly once).'
